@@ -33,9 +33,26 @@ var vpC02Texts = []string{
 	"f(a, b...)", "f(...a)", "f(a..., b)", "a ? : b", "a ? b :", "? a : b", "a b", "a +", "+ ", "(", ")", "[", "]", "f(", "f(a,", "a..b", "a.", ".a", "a!.", "1 2", "a ? b ? c : d", "a : b",
 }
 
+// vpC02LongTexts: longer generated formulas (a few hundred tokens): many sibling prefix
+// operators, parentheses, calls and conditionals; deep nesting; long operator chains.
+func vpC02LongTexts() [][]byte {
+	return [][]byte{
+		vpRepeat("[", "-1, ", "-1]", 300), vpRepeat("a", " + !b", "", 300), vpRepeat("", "(1) + ", "1", 300), vpRepeat("", "f(1) + ", "1", 300),
+		vpRepeat("", "(", "1"+string(vpRepeat("", ")", "", 200)), 200), vpRepeat("", "-", "1", 300), vpRepeat("", "typeof ", "a", 300), vpRepeat("", "a ? 1 : ", "2", 300),
+		vpRepeat("a", ".b", "", 300), vpRepeat("a", "(1)", "", 300), vpRepeat("1", " * 2 + 3", "", 200), vpRepeat("[", "[", "1"+string(vpRepeat("", "]", "", 201)), 200),
+		vpRepeat("", "(", "1", 200), vpRepeat("1", " + ", "", 200), vpRepeat("f(", "a..., ", "b)", 2),
+	}
+}
+
 // C02/pool: the real scanner + parser against the reference tokenizer + parser on the concrete pool.
 func VP_C02_pool() {
-	vpC02CheckText([]byte(vpC02Texts[vpChoice("text", len(vpC02Texts))]))
+	long := vpC02LongTexts()
+	k := vpChoice("text", len(vpC02Texts)+len(long))
+	if k < len(vpC02Texts) {
+		vpC02CheckText([]byte(vpC02Texts[k]))
+	} else {
+		vpC02CheckText(long[k-len(vpC02Texts)])
+	}
 }
 
 func vpC02CheckText(text []byte) {
